@@ -16,10 +16,15 @@ def inst_line(addr, mnemonic, ops, pad=2, raw="90", annot=""):
     return " " * pad + f"{addr}:\t{raw_col}\t{text}{annot}"
 
 
-def render(insts, header=True, label="f", pad=2):
+def render(insts, header=True, label="f", pad=2, cont=()):
+    """cont: indices of instructions printed as > 7 bytes long, i.e. followed by a byte-continuation line."""
     out = list(HEADER) if header else []
     if label is not None and insts:
         out.append(f"{int(insts[0][0], 16):016x} <{label}>:")
-    for a, m, ops in insts:
-        out.append(inst_line(a, m, ops, pad=pad))
+    for k, (a, m, ops) in enumerate(insts):
+        if k in cont:
+            out.append(inst_line(a, m, ops, pad=pad, raw="48 b8 88 77 66 55 44"))
+            out.append(" " * pad + f"{int(a, 16) + 7:x}:\t33 22 11 ")
+        else:
+            out.append(inst_line(a, m, ops, pad=pad))
     return "\n".join(out) + "\n"
